@@ -1,2 +1,233 @@
-def join_abi_rule(run, fh, ff, rid): pass
-def grow_abi_rule(run, fh, rid): pass
+"""Rule instances on the C-ABI layer: hook crate (hook/default) and facade crate (facade/default)."""
+from analysis.facts import norm
+from analysis.cfg import Cfg
+from analysis.flow import DefUse, backward, find_calls, callee_is, callee_ends, op_local, op_const, bool_branch, variant_arms
+from analysis.table import PathWalker, describe_val
+from rules.common import need
+
+
+def _ret_desc(b, du, path):
+    r = None
+    for bid in path:
+        for s in b.blocks[bid]["stmts"]:
+            if s["k"] == "assign" and s["lhs"]["l"] == 0 and not s["lhs"]["proj"]:
+                rv = s["rhs"]
+                if rv["k"] == "use" and rv["a"]["k"] == "const":
+                    r = ("const", rv["a"].get("v"))
+                else:
+                    r = ("value",)
+        t = b.blocks[bid]["term"]
+        if t["k"] == "call" and t["dest"]["l"] == 0:
+            r = ("call", norm(t.get("callee") or ""))
+    return r
+
+
+def join_abi_rule(run, fh, ff, rid):
+    run.rule(rid, "C ABI of join: the hook encodes Ok(Ok(Some(p)))->p, Ok(Ok(None))->0, every failure -> -1; the facade decodes <0 -> Err, 0 -> Ok(None), >0 -> the boxed result; a task body never fails through the -1 channel", floor=2, template="T6 (writer/reader tables agree)")
+    for fn in ("task_join", "task_timeout_join"):
+        b = need(run, rid, fh, fn)
+        if b is None:
+            continue
+        w = PathWalker(b)
+        paths = w.walk(0, lambda bid, t: ("return",) if t["k"] == "return" else None)
+        run.count("paths_or_states", len(paths))
+        rows = {}
+        for (path, conds, sv) in paths:
+            vs = tuple(tuple(sorted(c[2])) for c in conds if c[0] == "variant")
+            rows.setdefault(vs, set()).add(_ret_desc(b, w.du, path))
+        ok = True
+        why = []
+        for vs, outs in rows.items():
+            flat = [v for tup in vs for v in tup]
+            if "Err" in flat:
+                want = {("const", "-1")}
+            elif flat == ["Ok", "Ok", "None"]:
+                want = {("const", "0")}
+            elif flat == ["Ok", "Ok", "Some"]:
+                want = None
+            else:
+                continue
+            if want is not None and outs != want:
+                ok = False
+                why.append("%s returns %s (expected %s)" % ("/".join(flat), sorted(outs), sorted(want)))
+            if want is None:
+                # the pointer itself through a checked conversion
+                if not all(o and o[0] == "call" and o[1].endswith("Result::expect") for o in outs):
+                    ok = False
+                    why.append("Ok(Ok(Some(p))) does not return p through a checked conversion: %s" % sorted(outs))
+        du = w.du
+        jn = [(x, t) for (x, t) in b.calls() if norm(t.get("callee") or "").endswith(("JoinHandle::join", "JoinHandle::timeout_join"))]
+        if len(jn) != 1 or {b.name_of(p) for p in backward(b, jn[0][1]["args"][0], du, at=(jn[0][0], "term"), through_calls="none").params} != {"handle"}:
+            ok = False
+            why.append("does not join its own handle argument")
+        if fn == "task_timeout_join" and jn:
+            d = describe_val(b, du, jn[0][1]["args"][1])
+            if not (d[0] == "call" and d[1] == "std::time::Duration::from_nanos" and "ns_time" in repr(d)):
+                ok = False
+                why.append("the timeout is not Duration::from_nanos(ns_time)")
+        if ok and len(rows) >= 4:
+            run.ok(rid, "hook::" + fn, {"rows": len(rows)})
+        else:
+            run.fail(rid, "hook::" + fn, b.loc(), "%s: %s" % (fn, "; ".join(why) or "result encoding table incomplete (%d rows)" % len(rows)))
+    if ff is None:
+        return
+    for fn in ("JoinHandle::join", "JoinHandle::timeout_join"):
+        b = need(run, rid, ff, fn)
+        if b is None:
+            continue
+        w = PathWalker(b)
+        du = w.du
+        paths = w.walk(0, lambda bid, t: ("return",) if t["k"] == "return" else None)
+        run.count("paths_or_states", len(paths))
+        ok = True
+        why = []
+        seen = set()
+        for (path, conds, sv) in paths:
+            ords = [c[2] for c in conds if c[0] == "variant" and set(c[2]) <= {"Less", "Equal", "Greater"}]
+            if not ords:
+                continue
+            o = ords[0]
+            calls = [norm(b.blocks[x]["term"].get("callee") or "") for x in path if b.blocks[x]["term"]["k"] == "call"]
+            from rules.C07 import ret_variant
+            rv = ret_variant(b, path)
+            for v in o:
+                seen.add(v)
+                if v == "Less" and rv != "Err":
+                    ok = False
+                    why.append("a negative code is not reported as Err")
+                if v == "Equal" and (rv != "Ok" or any(c.endswith("Box::from_raw") for c in calls)):
+                    ok = False
+                    why.append("code 0 must be Ok(None)")
+                if v == "Greater" and not any(c.endswith("Box::from_raw") for c in calls):
+                    ok = False
+                    why.append("a positive code must be decoded as the boxed result")
+        cmpz = [(x, t) for (x, t) in b.calls() if norm(t.get("callee") or "").endswith("::cmp")]
+        if not cmpz or seen != {"Less", "Equal", "Greater"}:
+            ok = False
+            why.append("the code is not classified by cmp(&0) into all three orderings (seen %s)" % sorted(seen))
+        if ok:
+            run.ok(rid, "facade::" + fn, "<0 Err, 0 Ok(None), >0 Box::from_raw")
+        else:
+            run.fail(rid, "facade::" + fn, b.loc(), "%s: %s" % (fn, "; ".join(sorted(set(why)))))
+    tm = [b for b in ff.bodies if b.npath.endswith("task::task_main") or b.npath.endswith("::task_main")]
+    if not tm:
+        run.missing(rid, "facade task_main")
+        return
+    b = tm[0]
+    run.fn(b)
+    bodies = [b] + [c for c in ff.bodies if c.kind == "Closure" and c.npath.startswith(b.npath + "::")]
+    calls = [norm(t.get("callee") or "") for c in bodies for (_x, t) in c.calls()]
+    dc = {t["substs"][-1] for c in bodies for (_x, t) in c.calls() if norm(t.get("callee") or "").endswith("::downcast_ref") and t.get("substs")}
+    du = DefUse(b)
+    r = backward(b, 0, du)
+    leaked = any(norm(t.get("callee") or "").endswith("Box::leak") or norm(t.get("callee") or "").endswith("Box::into_raw") for (_x, t) in r.calls)
+    why = []
+    if "std::panic::catch_unwind" not in calls:
+        why.append("the user closure is not run under catch_unwind")
+    if not leaked:
+        why.append("the value returned is not a leaked box (0 and negative codes are reserved)")
+    if not any("str" in d for d in dc) or not any("String" in d for d in dc):
+        why.append("the panic message is recovered only for payload types %s (a formatted panic!(\"..{}\") carries a String): the joiner gets 'task failed without message'" % sorted(dc))
+    if why:
+        run.fail(rid, "facade::task_main", b.loc(), "; ".join(why))
+    else:
+        run.ok(rid, "facade::task_main", {"payload_types": sorted(dc)})
+
+
+def grow_abi_rule(run, fh, rid):
+    run.rule(rid, "hook::maybe_grow_stack substitutes the defaults exactly for zero arguments, passes param to the callback and returns its value", floor=1, template="T5")
+    b = need(run, rid, fh, "maybe_grow_stack")
+    if b is None:
+        return
+    du = DefUse(b)
+    cfg = Cfg(b)
+    mg = [(x, t) for (x, t) in b.calls() if norm(t.get("callee") or "").endswith("Coroutine::maybe_grow_with")]
+    why = []
+    if len(mg) != 1:
+        why.append("no single maybe_grow_with call")
+    else:
+        x, t = mg[0]
+        for i, (pn, dflt) in enumerate((("red_zone", "default_red_zone"), ("stack_size", "DEFAULT_STACK_SIZE"))):
+            sl = backward(b, t["args"][i], du, at=(x, "term"))
+            srcs = {b.name_of(p) for p in sl.params} | {norm(tt.get("callee") or "").rsplit("::", 1)[-1] for (_y, tt) in sl.calls}
+            if pn not in srcs:
+                why.append("argument %d is not the caller's %s" % (i, pn))
+            if dflt == "default_red_zone" and dflt not in srcs:
+                why.append("a zero red_zone is not replaced by default_red_zone()")
+            if sl.binops() and set(sl.binops()) - {"Gt", "Ne", "Eq"}:
+                why.append("%s is modified arithmetically (%s)" % (pn, sl.binops()))
+        # the tests are `> 0`
+        for blk in b.blocks:
+            for s in blk["stmts"]:
+                if s["k"] == "assign" and s["rhs"]["k"] == "binop" and s["rhs"]["op"] in ("Gt", "Ne", "Lt", "Eq", "Ge", "Le"):
+                    if op_const(s["rhs"]["b"]) not in (0, None) or op_const(s["rhs"]["a"]) not in (0, None):
+                        why.append("an argument is compared with a constant other than 0")
+        cl = [c for c in fh.bodies if c.kind == "Closure" and c.npath.startswith("maybe_grow_stack::")]
+        okp = False
+        for c in cl:
+            for (_y, tt) in c.calls():
+                if tt.get("callee") is None and tt["args"]:
+                    d2 = DefUse(c)
+                    sl = backward(c, tt["args"][0], d2, through_calls="none")
+                    okp = any(v == "param" for v in c.upvars.values()) and not sl.ops
+        if not okp:
+            why.append("the callback is not invoked with the caller's param")
+        r = backward(b, 0, du)
+        if not any(y == x for (y, _t) in r.calls):
+            why.append("the value returned is not the callback's result")
+    if why:
+        run.fail(rid, "hook::maybe_grow_stack", b.loc(), "; ".join(sorted(set(why))))
+    else:
+        run.ok(rid, "hook::maybe_grow_stack", "zero -> defaults; f(param); result returned")
+
+
+def forward_rule(run, fh, rid):
+    run.rule(rid, "every interposed libc symbol forwards its own arguments, in order, to the same-named core syscall whenever hooking is on or a coroutine is current, and to the real symbol otherwise", floor=36, template="T5/T2")
+    for b in fh.bodies:
+        if b.kind != "Fn" or not b.npath.startswith("syscall::unix::"):
+            continue
+        nm = b.npath.rsplit("::", 1)[1]
+        run.fn(b)
+        cfg = Cfg(b)
+        du = DefUse(b)
+        core = [(x, t) for (x, t) in b.calls() if norm(t.get("callee") or "").startswith("open_coroutine_core::syscall::")]
+        raw = [(x, t) for (x, t) in b.calls() if t.get("callee") is None]
+        hk = [(x, t) for (x, t) in b.calls() if norm(t.get("callee") or "") == "hook"]
+        cu = [(x, t) for (x, t) in b.calls() if norm(t.get("callee") or "").endswith("Coroutine::current")]
+        why = []
+        if len(core) != 1 or len(raw) != 1:
+            why.append("expected one core-syscall call and one call of the real symbol")
+        else:
+            cx, ct = core[0]
+            if norm(ct["callee"]).rsplit("::", 1)[1] != nm:
+                why.append("forwards to core syscall `%s`" % norm(ct["callee"]).rsplit("::", 1)[1])
+            n = b.argc
+            for i in range(n):
+                a = ct["args"][i + 1] if i + 1 < len(ct["args"]) else None
+                sl = backward(b, a, du, at=(cx, "term"), through_calls="none") if a else None
+                if sl is None or sl.params != {i + 1} or sl.ops:
+                    why.append("argument %d of the core call is not parameter %d unchanged" % (i + 1, i + 1))
+            rx, rt = raw[0]
+            for i in range(n):
+                a = rt["args"][i] if i < len(rt["args"]) else None
+                sl = backward(b, a, du, at=(rx, "term"), through_calls="none") if a else None
+                if sl is None or sl.params != {i + 1} or sl.ops:
+                    why.append("argument %d of the real call is not parameter %d unchanged" % (i, i + 1))
+            # dispatch: core call reachable when hook() is true and when current().is_some() is true
+            if not hk or not cu:
+                why.append("dispatch does not consult both hook() and SchedulableCoroutine::current()")
+            else:
+                br = bool_branch(b, cfg, du, hk[0][1]["dest"]["l"], cfg.after(hk[0][0]))
+                if not br or cx not in cfg.reachable({br[0]}, avoid={rx}) or rx in cfg.reachable({br[0]}, avoid={cx}):
+                    why.append("with hooking enabled the call is not (always) routed to the core syscall")
+                isn = [(x, t) for (x, t) in b.calls() if norm(t.get("callee") or "") == "std::option::Option::is_some"]
+                if isn:
+                    br2 = bool_branch(b, cfg, du, isn[0][1]["dest"]["l"], cfg.after(isn[0][0]))
+                    if not br2 or rx in cfg.reachable({br2[0]}, avoid={cx}):
+                        why.append("inside a coroutine the call is not (always) routed to the core syscall")
+                else:
+                    why.append("the current-coroutine test is not evaluated")
+        if why:
+            run.fail(rid, "hook::" + nm, b.loc(), "%s: %s" % (nm, "; ".join(sorted(set(why))[:4])))
+        else:
+            run.ok(rid, "hook::" + nm, "hook() || current().is_some() -> core::%s(Some(real), args..) else real(args..)" % nm)
